@@ -10,7 +10,9 @@ Three kinds of cases (``spec["k"]``):
     arithmetic (cross-multiplication, no division), two independent rays.
 ``rand``  (Hypothesis)  3..12 float vertices ``m*10**e`` (e in -6..6), built
     from coordinate pools (many level / repeated coordinates), star shapes
-    (convex / concave) or free coordinates; query points random, level with a
+    (convex / concave) or free coordinates, optionally scaled as a whole by
+    1e-10..1e10 or moved 1e4..1e9 extents away from the origin (features in SI
+    units, narrow gates on frame numbers / times); query points random, level with a
     vertex / horizontal edge, next to an edge (relative offsets 1e-15..1e-3).
     Oracle: the same parity in exact big-integer arithmetic on the doubles.
     Checked for the polygon, a cyclic shift, the reversal, a repeated closing
@@ -51,6 +53,7 @@ ESSENTIAL = ["grid:polygons", "grid:pt-hedge-level", "grid:pt-vertex-level",
              "rand:convex", "rand:concave", "rand:self-intersecting",
              "rand:repeated-vertex", "rand:pt-vertex-level",
              "rand:pt-hedge-level", "rand:pt-near-edge",
+             "rand:xf-tiny", "rand:xf-huge", "rand:xf-offset",
              "poly:multi", "poly:inverted", "poly:coords-decimal",
              "poly:coords-double", "poly:name-with-equals",
              "poly:how-save_all", "poly:how-append", "poly:how-fobj",
@@ -420,7 +423,10 @@ def _run_rand(spec, rec):
     rec.cls(f"rand:{shape}")
     if repeated:
         rec.cls("rand:repeated-vertex")
-    rec.cls(f"rand:mode-{spec.get('mode', '?')}")
+    mode = str(spec.get("mode", "?"))
+    rec.cls(f"rand:mode-{mode.split('+')[0]}")
+    if "+" in mode:
+        rec.cls(f"rand:xf-{mode.split('+')[1]}")
     states, pcs = [], []
     for k in range(len(pts)):
         stt, hedge, vertex = ex.classify_point(k)
@@ -767,6 +773,27 @@ def st_vertices(draw):
                  for k, r in zip(ks, rs)]
         if draw(st.booleans()):
             verts = verts[::-1]
+    # whole-polygon scale / offset classes (features in SI units, frame
+    # numbers or times with a narrow gate far from the origin)
+    xf = draw(st.sampled_from(["none", "none", "none", "tiny", "huge", "offset",
+                               "offset"]))
+    if xf in ("tiny", "huge"):
+        sg = -1 if xf == "tiny" else 1
+        fx = 10.0 ** (sg * draw(st.integers(4, 10)))
+        fy = 10.0 ** (sg * draw(st.integers(4, 10)))
+        verts = [[v[0] * fx, v[1] * fy] for v in verts]
+    elif xf == "offset":
+        for ax in (0, 1):
+            if ax == 1 and draw(st.sampled_from([False, False, True])):
+                continue
+            cs = [v[ax] for v in verts]
+            ext = (max(cs) - min(cs)) or max(abs(c) for c in cs) or 1.0
+            c = draw(st.sampled_from([1.0, -1.0, 2.5, 7.0])) * ext \
+                * 10.0 ** draw(st.integers(4, 9))
+            for v in verts:
+                v[ax] = v[ax] + c
+    if xf != "none":
+        mode = mode + "+" + xf
     return mode, verts
 
 
